@@ -724,6 +724,12 @@ func (ef *Filter) filterValue(ctx context.Context, fv reflect.Value, classificat
 			switch {
 			case reflect.TypeOf(i) == reflect.TypeOf(&structpb.Value{}):
 				raw = []byte(i.(*structpb.Value).GetStringValue())
+			case ftype == reflect.TypeOf(""):
+				// the tagged value is a string, or a pointer to one (fv is
+				// what it points at, not the pointer)
+				raw = []byte(fv.String())
+			case ftype == reflect.TypeOf([]uint8(nil)):
+				raw = fv.Bytes()
 			default:
 				raw = []byte(fmt.Sprintf("%s", i))
 			}
@@ -754,6 +760,12 @@ func (ef *Filter) filterValue(ctx context.Context, fv reflect.Value, classificat
 		}
 		if opts.withPointerstructureInfo != nil {
 			switch {
+			case fv.CanSet() && (ftype == reflect.TypeOf("") || ftype == reflect.TypeOf([]uint8(nil))):
+				// the tagged value is held through a pointer: what it points
+				// at is filtered in place, the pointer stays
+				if err := setValue(fv, data); err != nil {
+					return fmt.Errorf("%s: %w", op, err)
+				}
 			case ftype == reflect.TypeOf(structpb.Value{}):
 				// support for tagging maps which are google.protobuf.Struct and use structpb.Value for their values.
 				if _, err := pointerstructure.Set(opts.withPointerstructureInfo.i, opts.withPointerstructureInfo.pointer, structpb.NewStringValue(data)); err != nil {
